@@ -20,3 +20,62 @@ pub fn main_wrap(prop: &str, run: fn(&mut Ctx)) {
 pub fn rel<T: ?Sized>(r: &T, base: *const u8) -> i64 {
     (r as *const T as *const u8 as usize as i64).wrapping_sub(base as usize as i64)
 }
+
+/// Full-domain (2^32) or sub-lattice sweep of a law over `u32`, one leaf per
+/// block.  `law` returns `Err(description)` for a value that breaks the law;
+/// a panic inside `law` is itself a violation and ends the block (the first
+/// panicking value is reported).
+pub fn sweep_u32(ctx: &mut Ctx, name: &'static str, key: &str, full: bool, evals_per_value: u64, law: impl Fn(u32) -> Result<u64, String>) {
+    use std::cell::Cell;
+    let blocks: u64 = if full { 4096 } else { 64 };
+    for blk in 0..blocks {
+        let describe = || {
+            J::obj()
+                .set("sweep", name)
+                .set("block", blk)
+                .set("domain", if full { "all 2^32 values, block = 2^20 consecutive values" } else { "lattice h<<16|l, h all 65536 values, l in 0..=15 and 0xFFF0..=0xFFFF; block = 1024 values of h" })
+        };
+        ctx.leaf(describe, |ctx| {
+            let cur = Cell::new(0u32);
+            let n = Cell::new(0u64);
+            let acc = Cell::new(0u64);
+            let bad: Cell<Option<(u32, String)>> = Cell::new(None);
+            let r = ctx.call(name, || {
+                let mut one = |x: u32| {
+                    cur.set(x);
+                    n.set(n.get() + 1);
+                    match law(x) {
+                        Ok(v) => acc.set(acc.get().wrapping_mul(31).wrapping_add(v)),
+                        Err(e) => {
+                            let b = bad.take();
+                            bad.set(b.or(Some((x, e))));
+                        }
+                    }
+                };
+                if full {
+                    let lo = (blk << 20) as u32;
+                    for i in 0..(1u32 << 20) {
+                        one(lo + i);
+                    }
+                } else {
+                    for h in (blk << 10)..((blk + 1) << 10) {
+                        for l in (0..16u32).chain(0xFFF0..0x1_0000) {
+                            one((h as u32) << 16 | l);
+                        }
+                    }
+                }
+            });
+            ctx.transitions += (n.get() * evals_per_value).saturating_sub(1);
+            ctx.ob("sweep.acc", acc.get());
+            ctx.state_direct();
+            ctx.nontrivial();
+            ctx.class("sweep:block");
+            if r.is_panic() {
+                ctx.violation(&format!("{}/panic", key), || format!("{} panicked for value {:#x}", name, cur.get()));
+            }
+            if let Some((x, e)) = bad.take() {
+                ctx.violation(key, || format!("{}: value {:#x}: {}", name, x, e));
+            }
+        });
+    }
+}
